@@ -17,7 +17,7 @@
 (***************************************************************************)
 EXTENDS Checkpoint, TLC
 
-CONSTANTS Impl,     \* "asis" | "temp_float" | "theta_attr" | "lazy_buffer"
+CONSTANTS Impl,     \* "asis" | "temp_float" | "theta_attr" | "lazy_buffer" | "private_stream"
           Kind,     \* "pit" | "mps" | "sn"
           MaxV,     \* saturation of the version counters
           Temps     \* abstract temperature ids (1 = default)
@@ -27,11 +27,12 @@ vars == <<s, I, hist>>
 \* the history is carried for the replayer only (one shortest history per state): hidden from the fingerprint
 View == <<s, I>>
 
-P == [hasbn |-> Kind # "mps", maxv |-> MaxV]
+P == [hasbn |-> Kind # "mps", maxv |-> MaxV, priv |-> Impl = "private_stream"]
 
 Init == \E train \in BOOLEAN, hard \in (IF Kind = "pit" THEN {FALSE} ELSE BOOLEAN),
-           dis \in (IF Kind = "mps" THEN BOOLEAN ELSE {FALSE}), dc \in (IF Kind = "pit" THEN BOOLEAN ELSE {FALSE}) :
-          /\ I = [train |-> train, hard |-> hard, disable |-> dis, dc |-> dc]
+           dis \in (IF Kind = "mps" THEN BOOLEAN ELSE {FALSE}), dc \in (IF Kind = "pit" THEN BOOLEAN ELSE {FALSE}),
+           gum \in (IF Kind = "pit" THEN {FALSE} ELSE BOOLEAN) :
+          /\ I = [train |-> train, hard |-> hard, gumbel |-> gum, disable |-> dis, dc |-> dc]
           /\ s = Fresh(Kind, I)
           /\ hist = <<>>
 
@@ -62,6 +63,9 @@ HistOk == s = RunHist(Fresh(Kind, I), hist, 1)
 \* the checkpoint experiment succeeds in every reachable state
 Resume == ResumeOk(Impl, Kind, P, I, s)
 Keys   == KeysOk(Impl, Kind, I, s)
+
+\* the code as read keeps no state outside the three classes
+NoHidden == s.hid = 0
 
 \* the classification is total and the configuration calls are exactly those that write "C" components only
 ClassTotal == \A c \in {"net", "nas", "bn", "theta", "temp", "hard", "disable", "dc", "rg", "mode", "drv"} :
